@@ -316,7 +316,7 @@ void runC18S(const Scenario& sc, vf::Result& res) {
     writeFile(g_path, g_good);
     sess::customOp = bookOp;
     sess::History h;
-    sess::runSession(sc, h, res);
+    harness_session_run(&sc, &h, &res);
     sess::customOp = nullptr;
     unlink(g_path.c_str());
     uci::Model m;
